@@ -73,9 +73,24 @@ class Real:
         self.metamodels = {}
         for variant, names in USER_CLASSES.items():
             classes = _user_classes(mm, names, variant == "userparent")
+            if classes:
+                self._past(classes)
             m = metamodel_from_str(self.grammar, classes=classes)
             nav.check_metamodel(mm, m)
             self.metamodels[variant] = m
+
+    def _past(self, classes):
+        """The Python user classes have been used before, by a meta-model whose rules of the same names have
+        other bodies (a former version of the language): models of it were loaded and navigated."""
+        from textx import get_children, get_children_of_type, metamodel_from_str
+        old = nav.decoy_containment(self.mm)
+        old_mm = metamodel_from_str(nav.grammar_of(old), classes=classes)
+        rng = random.Random(5)
+        for _ in range(6):
+            model = old_mm.model_from_str(nav.render(old, nav.random_graph(rng, old, 6)))
+            get_children(lambda x: True, model)
+            for c in old["classes"]:
+                get_children_of_type(c["name"], model)
 
     def observe(self, g, queries, variant):
         """Load the rendered model and ask the real API everything the oracle was asked."""
@@ -308,7 +323,10 @@ def run(rep):
         "textX passes to __init__; variant `userparent` (all three rules) stores `self.parent = parent`, None for "
         "the root; the classes are container-like (__len__ / __bool__), so instances can be falsy",
         "carrier: class names are prefixes/suffixes of one another (Pkg, PkgSubPkg, PkgLeaf); Pkg.elems is assigned "
-        "at three places with different rules, so textX types it OBJECT",
+        "at four places with different rules (one of them INT), so textX types it OBJECT and its lists hold plain "
+        "values next to objects; plain values are not model objects (never returned, no parent)",
+        "the Python user classes were used before by a meta-model with other rule bodies for the same rule names "
+        "(models loaded and navigated), then handed to the meta-model under test",
         "references are resolved by the default provider; all names in this family are unique",
     ]
     findings = common.open_findings(PID)
